@@ -187,18 +187,14 @@ var rR23p = RuleRef{Name: "R23p", Doc: "exactly-once proposal: in the cluster co
 
 // R16x: restart uses what is on disk, all of it, and only what the log vouches for.
 var rR16x = RuleRef{Name: "R16x", Doc: "restart: the function that replays the WAL hands the entries ReadAll returned to the storage as they are (no filtering by the persisted commit index: a follower's tail may hold entries the leader already counted as acknowledged); the snapshot used at restart is chosen among those the WAL vouches for (wal.ValidSnapshotEntries feeding Snapshotter.LoadNewestAvailable), never the plain newest file; the proposal codec is encoding/json on both sides", Run: func(c *C) {
-	// (a) replay: Append gets ReadAll's entries
+	// (a) replay: the storage Append whose argument comes from ReadAll gets those entries as they are
 	nApp := 0
+	liveFns := map[*ssa.Function]bool{}
+	if nr := c.P.Func("raftexample", "NewRaftNode"); nr != nil {
+		liveFns = c.reachableFirstParty([]*ssa.Function{nr})
+	}
 	for _, fn := range c.P.allFuncs("raftexample") {
-		readsAll := false
-		for _, b := range fn.Blocks {
-			for _, in := range b.Instrs {
-				if ci, ok := in.(ssa.CallInstruction); ok && callName(ci) == "ReadAll" {
-					readsAll = true
-				}
-			}
-		}
-		if !readsAll {
+		if !liveFns[fn] {
 			continue
 		}
 		for _, b := range fn.Blocks {
@@ -210,12 +206,12 @@ var rR16x = RuleRef{Name: "R16x", Doc: "restart: the function that replays the W
 				if !strings.Contains(call.Call.Args[len(call.Call.Args)-1].Type().String(), "raftpb.Entry") {
 					continue
 				}
-				nApp++
 				bad := ""
+				sawReadAll, sawReady := false, false
 				seen := map[ssa.Value]bool{}
 				var walk func(v ssa.Value, d int)
 				walk = func(v ssa.Value, d int) {
-					if seen[v] || d > 12 || bad != "" {
+					if v == nil || seen[v] || d > 14 {
 						return
 					}
 					seen[v] = true
@@ -226,20 +222,54 @@ var rR16x = RuleRef{Name: "R16x", Doc: "restart: the function that replays the W
 						}
 					case *ssa.Extract:
 						walk(x.Tuple, d+1)
+					case *ssa.Field:
+						if strings.Contains(x.X.Type().String(), "Ready") {
+							sawReady = true
+							return
+						}
+						walk(x.X, d+1) // a field of a result struct of a helper
+					case *ssa.FieldAddr:
+						if strings.Contains(x.X.Type().String(), "Ready") {
+							sawReady = true
+							return
+						}
+						// a field of a local result record: what was stored into it
+						for _, r := range *x.Referrers() {
+							if st, ok := r.(*ssa.Store); ok && st.Addr == ssa.Value(x) {
+								walk(st.Val, d+1)
+							}
+						}
+						// the record variable as a whole was assigned the result of a helper
+						if al, ok := x.X.(*ssa.Alloc); ok && al.Referrers() != nil {
+							for _, r := range *al.Referrers() {
+								if st, ok := r.(*ssa.Store); ok && st.Addr == ssa.Value(al) {
+									walk(st.Val, d+1)
+								}
+							}
+						}
+						walk(x.X, d+1)
 					case *ssa.Call:
 						if n := callName(x); n == "ReadAll" {
+							sawReadAll = true
 							return
 						} else if cf := callee(x); cf != nil && firstParty(cf) && cf.Blocks != nil {
-							// a helper that returns what ReadAll returned
+							// a helper that returns what ReadAll returned (possibly inside a result struct)
 							for _, hb := range cf.Blocks {
 								for _, hi := range hb.Instrs {
 									if ret, ok := hi.(*ssa.Return); ok {
 										for _, alts := range retResults(ret) {
 											for _, rv := range alts {
-												if strings.Contains(rv.Type().String(), "raftpb.Entry") {
+												ts := rv.Type().String()
+												if strings.Contains(ts, "raftpb.Entry") || !strings.Contains(ts, "error") && strings.Contains(ts, "raftexample.") {
 													walk(rv, d+1)
 												}
 											}
+										}
+									}
+									// fields of result records filled in the helper
+									if st, ok := hi.(*ssa.Store); ok && strings.Contains(st.Val.Type().String(), "raftpb.Entry") {
+										if _, isFA := st.Addr.(*ssa.FieldAddr); isFA {
+											walk(st.Val, d+1)
 										}
 									}
 								}
@@ -251,19 +281,38 @@ var rR16x = RuleRef{Name: "R16x", Doc: "restart: the function that replays the W
 					case *ssa.Slice:
 						bad = "the entries are sub-sliced before they are appended (" + canon(x) + ")"
 					case *ssa.UnOp:
-						if al, ok := x.X.(*ssa.Alloc); ok && x.Op == token.MUL {
-							for _, r := range *al.Referrers() {
-								if st, ok := r.(*ssa.Store); ok && st.Addr == ssa.Value(al) {
-									walk(st.Val, d+1)
+						if x.Op == token.MUL {
+							switch a := x.X.(type) {
+							case *ssa.Alloc:
+								for _, r := range *a.Referrers() {
+									if st, ok := r.(*ssa.Store); ok && st.Addr == ssa.Value(a) {
+										walk(st.Val, d+1)
+									}
+									// a record built field by field: the entry-typed fields
+									if fa, ok := r.(*ssa.FieldAddr); ok && fa.Referrers() != nil {
+										for _, rr := range *fa.Referrers() {
+											if st, ok := rr.(*ssa.Store); ok && st.Addr == ssa.Value(fa) && strings.Contains(st.Val.Type().String(), "raftpb.Entry") {
+												walk(st.Val, d+1)
+											}
+										}
+									}
 								}
+							case *ssa.FieldAddr:
+								walk(a, d+1)
 							}
 						}
 					case *ssa.Const, *ssa.Alloc, *ssa.Parameter:
 					default:
-						bad = fmt.Sprintf("the entries are rebuilt (%T)", v)
 					}
 				}
 				walk(call.Call.Args[len(call.Call.Args)-1], 0)
+				if sawReady && !sawReadAll {
+					continue // the Ready loop's append of new entries
+				}
+				nApp++
+				if !sawReadAll && bad == "" {
+					bad = "the appended entries do not come from ReadAll"
+				}
 				c.Add("R16x", fnName(fn), "the storage is given every entry read from the WAL", call.Pos(), bad == "", bad)
 			}
 		}
@@ -739,6 +788,14 @@ var rR22d = RuleRef{Name: "R22d", Doc: "contract of DelTTL, which the delete-whe
 			if a := c.keyspaceAccess(ci); a != nil && a.Map == "ttlKeys" && a.Method == "Delete" && paramIndex(fn, canon(a.Key)) >= 0 {
 				s["DONE"] = true
 			}
+			// a helper that removes the entry of the key it is given, on all of its paths
+			if cf := callee(ci); cf != nil && cf != fn {
+				for _, pi := range c.ttlRemoverParams(cf) {
+					if pi < len(ci.Call.Args) && paramIndex(fn, canon(ci.Call.Args[pi])) >= 0 {
+						s["DONE"] = true
+					}
+				}
+			}
 		}
 		return s, false
 	}
@@ -906,4 +963,127 @@ func baseIs(v ssa.Value, base ssa.Value) bool {
 		v = bo.X
 	}
 	return false
+}
+
+// applyLoop locates the function that applies committed log entries to the state machine by what it does: a function of
+// package server that receives from a channel of raft commits and reaches a command dispatcher. The name it has today
+// (handleClusterCommits) is only the fallback.
+func (c *C) applyLoop() *ssa.Function {
+	if c.applyLoopFn != nil {
+		return c.applyLoopFn
+	}
+	var cands []*ssa.Function
+	for _, fn := range c.P.allFuncs("server") {
+		if fn.Parent() != nil || fn.Blocks == nil {
+			continue
+		}
+		recv := false
+		for _, p := range fn.Params {
+			if ch, ok := p.Type().Underlying().(*types.Chan); ok && strings.Contains(ch.Elem().String(), "RaftCommit") {
+				recv = true
+			}
+		}
+		if !recv {
+			continue
+		}
+		disp := false
+		for _, d := range c.Facts.Dispatchers {
+			if d.Parent() == fn || callsTransitively(fn, d.Parent(), 0) {
+				disp = true
+			}
+		}
+		if disp {
+			cands = append(cands, fn)
+		}
+	}
+	if len(cands) == 1 {
+		c.applyLoopFn = cands[0]
+	} else if f := c.P.Func("server", "handleClusterCommits"); f != nil {
+		c.applyLoopFn = f
+	}
+	return c.applyLoopFn
+}
+
+// globalMapInit: the key/value pairs a package-level map variable is initialised with (a map composite literal in its
+// declaration). ok is false when the variable is assigned anywhere else or its initialiser is not a plain literal:
+// then nothing is known about its contents.
+type mapEntry struct{ Key, Val ssa.Value }
+
+func (c *C) globalMapInit(g *ssa.Global) ([]mapEntry, bool) {
+	if g == nil || g.Pkg == nil {
+		return nil, false
+	}
+	initFn := g.Pkg.Func("init")
+	if initFn == nil {
+		return nil, false
+	}
+	var m ssa.Value
+	stores := 0
+	// every store to the global, anywhere in its package
+	for _, mem := range g.Pkg.Members {
+		fn, ok := mem.(*ssa.Function)
+		if !ok {
+			continue
+		}
+		fns := append([]*ssa.Function{fn}, fn.AnonFuncs...)
+		for _, f := range fns {
+			for _, b := range f.Blocks {
+				for _, in := range b.Instrs {
+					if st, ok := in.(*ssa.Store); ok && st.Addr == ssa.Value(g) {
+						stores++
+						if f == initFn {
+							m = st.Val
+						}
+					}
+				}
+			}
+		}
+	}
+	mk, isMake := m.(*ssa.MakeMap)
+	if stores != 1 || !isMake || mk.Referrers() == nil {
+		return nil, false
+	}
+	var out []mapEntry
+	for _, r := range *mk.Referrers() {
+		switch x := r.(type) {
+		case *ssa.MapUpdate:
+			out = append(out, mapEntry{x.Key, x.Value})
+		case *ssa.Store, *ssa.DebugRef:
+		default:
+			return nil, false
+		}
+	}
+	// no update through the global elsewhere
+	for _, fn := range c.P.allFuncs(firstPartyPkgs...) {
+		for _, b := range fn.Blocks {
+			for _, in := range b.Instrs {
+				if mu, ok := in.(*ssa.MapUpdate); ok {
+					if u, ok := mu.Map.(*ssa.UnOp); ok && u.X == ssa.Value(g) {
+						return nil, false
+					}
+				}
+			}
+		}
+	}
+	return out, true
+}
+
+// lookupOfGlobalMap: v is m[k] (either form) on a package-level map; returns the global and the key.
+func lookupOfGlobalMap(v ssa.Value) (*ssa.Global, ssa.Value) {
+	if ex, ok := v.(*ssa.Extract); ok {
+		v = ex.Tuple
+	}
+	lk, ok := v.(*ssa.Lookup)
+	if !ok {
+		return nil, nil
+	}
+	u, ok := lk.X.(*ssa.UnOp)
+	if !ok {
+		return nil, nil
+	}
+	g, ok := u.X.(*ssa.Global)
+	if !ok {
+		return nil, nil
+	}
+	return g, lk.Index
 }
